@@ -231,6 +231,29 @@ def lastWaitBefore (es : List Ev) (upTo : Nat) (id : Id) : Option String :=
 def opResultBefore (es : List Ev) (upTo : Nat) (kinds : List String) (id : Id) : Option String :=
   ((es.take upTo).filterMap fun e => match e with | .op k _ i st _ => if i = id && k ∈ kinds then some st else none | _ => none).getLast?
 
+/-- "observed Current at a generation not older than the applied one": an object whose only observation so far is the
+initial status (reported before the run changed it) and whose apply bumped the generation cannot be reported reconciled
+at the start of its wait phase — its first wait event must be Pending -/
+def staleInitialReportedReconciled (h : History) (obs : List RunObs) (k : Nat) (o : RunObs) (r : Run) : Option String :=
+  if r.opts.dry ≠ .none then none else
+  let s0 := startSnap h obs k
+  r.initial.findSome? fun d =>
+    match snapFind s0 d with
+    | none => none
+    | some live0 =>
+      -- generation after this run's apply request for d (if any)
+      match o.muts.find? (fun m => m.id = d && (m.verb = "patch" || m.verb = "create") && m.result = "ok" && !m.dry) with
+      | none => none
+      | some m =>
+        match snapFind m.snap d with
+        | none => none
+        | some live1 =>
+          if live1.gen ≤ live0.gen then none else
+          let firstWait := (o.events.drop m.evIdx).findSome? fun e => match e with | .wait _ i st => if i = d then some st else none | _ => none
+          if firstWait = some "Successful" then
+            some s!"C04 run {k}: {d.name} reported reconciled at the start of its wait phase although its only observation (generation {live0.gen}) is older than the applied generation {live1.gen}"
+          else none
+
 def checkC04 (h : History) (obs : List RunObs) : Option String :=
   (List.range obs.length).findSome? fun k =>
     match obs[k]?, h.runs[k]? with
@@ -238,7 +261,7 @@ def checkC04 (h : History) (obs : List RunObs) : Option String :=
       if r.destroy then none else
       let applySet := r.objs.map (·.id)
       let dry := r.opts.dry ≠ .none
-      o.muts.findSome? fun m =>
+      (staleInitialReportedReconciled h obs k o r) <|> o.muts.findSome? fun m =>
         if (m.verb = "patch" || m.verb = "create") && !isInvReq m && m.id ≠ nsInvId || (m.id = nsInvId && m.verb = "patch") then
           (depsIn h applySet m.id).findSome? fun d =>
             if opResultBefore o.events m.evIdx ["apply"] d ≠ some "Successful" then
